@@ -146,6 +146,7 @@ class STensor(object):
         self.is_leaf = True
         self.deps = frozenset()      # ids of tracked leaves this value is differentiably derived from
         self.grad_cut = False        # value passed through a non-differentiable step
+        self.prov = frozenset()      # provenance labels: which marked inputs this value was computed from (any data flow)
         self.ghost = {}
         self.stale = False
         self.tid = next(_ids)
@@ -272,6 +273,11 @@ def derive(out, *ins, differentiable=True, view_of=None):
     """propagate autograd tags and storage"""
     deps = frozenset()
     cut = False
+    prov = out.prov
+    for t in ins:
+        if isinstance(t, STensor):
+            prov = prov | t.prov
+    out.prov = prov
     for t in ins:
         if isinstance(t, STensor):
             d = t.deps
@@ -645,6 +651,9 @@ def _infer_quotient(src, shape, k, total, known):
                 break
     if ok:
         return sz(prod([f.size for f in src[lo:hi]])) if hi > lo else 1
+    q0 = exact_div(total, known)
+    if q0 is not None:
+        return sz(q0) if is_sym(q0) else q0
     # general case: fresh quotient
     q = fresh_int('q')
     require(z3.And(to_int(known) > 0, to_int(total) % to_int(known) == 0), 'RuntimeError', 'shape is invalid for input size')
@@ -653,92 +662,84 @@ def _infer_quotient(src, shape, k, total, known):
     return q
 
 
+def exact_div(a, b):
+    """a / b when b divides a (decided by equality under the path condition or syntactically on products); else None"""
+    if not is_sym(a) and not is_sym(b):
+        return a // b if b != 0 and a % b == 0 else None
+    if known_eq(a, b):
+        return 1
+    from . import optable
+    fd = optable.factor_divide(ex(), a, b)
+    if fd is not None and not is_sym(fd[1]) and fd[1] == 0:
+        return fd[0]
+    return None
+
+
 def _regroup(src, shape):
-    """returns (axes, mapping) where mapping(idx) -> {factor id: index expr} for the source factors"""
-    groups = []      # per target axis: ('merge', [src factors]) | ('split', srcfactor, position info)
-    i = 0
-    nsrc = len(src)
-    k = 0
-    ntgt = len(shape)
-    plan = []        # list of (kind, data)
-    axes = []
-    # skip logic: unit source factors are absorbed silently
+    """two-pointer regrouping with partial consumption of source factors.
+    returns (axes, mapping) where mapping(idx) -> {source factor id: index expr}"""
     def unit(x):
         return known_eq(x, 1)
-    while k < ntgt:
-        T = shape[k]
-        if unit(T):
+    srcq = [f for f in src if not unit(f.size)]
+    pieces_of = {f.id: [] for f in srcq}     # source factor -> list of (piece factor, target axis k, position in the index tuple)
+    axes = []
+    i = 0
+    rem = None
+    cur = None
+    for k, Tsize in enumerate(shape):
+        if unit(Tsize):
             axes.append(Axis(1))
-            plan.append(('unit', None))
-            k += 1
             continue
-        # skip unit source factors
-        while i < nsrc and unit(src[i].size):
-            i += 1
-        if i >= nsrc:
-            raise OutOfSubset('reshape: cannot align target sizes with source factors')
-        # try merge: T == product of src[i:j]
-        p = 1
-        j = i
-        merged = None
-        while j < nsrc:
-            p = p * src[j].size
-            j += 1
-            if known_eq(p, T):
-                merged = (i, j)
-                break
-        if merged:
-            fs = [f for f in src[merged[0]:merged[1]] if not unit(f.size)]
-            if len(fs) == 1:
-                axes.append(Axis(T, [fs[0]]))
-            else:
-                axes.append(Axis(T, fs))
-            plan.append(('merge', fs))
-            i = merged[1]
-            k += 1
-            continue
-        # try split: src[i].size == product of shape[k:k2]
-        p = 1
-        k2 = k
-        split = None
-        while k2 < ntgt:
-            p = p * shape[k2]
-            k2 += 1
-            if known_eq(p, src[i].size):
-                split = (k, k2)
-                break
-        if split:
-            newf = []
-            for kk in range(split[0], split[1]):
-                a = Axis(shape[kk])
-                axes.append(a)
-                newf.append(a.factors[0])
-            for pos in range(len(newf)):
-                plan.append(('split', (src[i], newf, pos)))
-            i += 1
-            k = split[1]
-            continue
-        raise OutOfSubset('reshape: target sizes %s do not align with factors %s' % (shape, src))
-    while i < nsrc:
-        if not unit(src[i].size):
-            raise OutOfSubset('reshape: leftover source factors')
-        i += 1
+        need = Tsize
+        run = []
+        guard = 0
+        while not unit(need):
+            guard += 1
+            if guard > 64:
+                raise OutOfSubset('reshape: regrouping does not terminate')
+            if rem is None:
+                if i >= len(srcq):
+                    raise OutOfSubset('reshape: target sizes %s do not align with factors %s' % (shape, src))
+                cur = srcq[i]
+                i += 1
+                rem = cur.size
+                whole = True
+            q = exact_div(need, rem)
+            if q is not None:
+                pf = cur if whole else Factor(sz(rem))
+                pieces_of[cur.id].append((pf, k, len(run)))
+                run.append(pf)
+                need = q
+                rem = None
+                continue
+            q2 = exact_div(rem, need)
+            if q2 is not None:
+                pf = Factor(sz(need))
+                pieces_of[cur.id].append((pf, k, len(run)))
+                run.append(pf)
+                rem = q2
+                whole = False
+                need = 1
+                if unit(rem):
+                    rem = None
+                continue
+            raise OutOfSubset('reshape: target sizes %s do not align with factors %s' % (shape, src))
+        axes.append(Axis(Tsize, run) if run else Axis(1))
+    if rem is not None and not unit(rem):
+        raise OutOfSubset('reshape: leftover source factor')
+    if i < len(srcq):
+        raise OutOfSubset('reshape: leftover source factors')
 
     def mapping(idx):
         fmap = {}
         for f in src:
             fmap[f.id] = 0
-        for k, (kind, data) in enumerate(plan):
-            if kind == 'merge':
-                for f, ix in zip(data, idx[k]):
-                    fmap[f.id] = ix
-            elif kind == 'split':
-                sf, newf, pos = data
-                if pos == 0:
-                    r = 0
-                    for q, nf in enumerate(newf):
-                        r = r * nf.size + idx[k + q][0]
-                    fmap[sf.id] = r
+        for f in srcq:
+            r = None
+            for pf, k, pos in pieces_of[f.id]:
+                ix = idx[k][pos]
+                r = ix if r is None else r * pf.size + ix
+            fmap[f.id] = r if r is not None else 0
         return fmap
     return axes, mapping
 
